@@ -87,6 +87,7 @@ package jsonrpc2
 //@ func (*Remote).getPendingChan
 //@ property C14
 //@ inline
+//@ requires !held(r.mu)
 
 // ---- codec and handler interfaces as seen by Remote ----------------------------------------
 //@ interface jsonrpc2.Codec.ReadMessage() (result, err)
